@@ -59,6 +59,11 @@ impl CQueueLLAllocatorInner {
             Layout::from_size_align(self.page_size, self.page_size).expect("page layout invalid"),
         );
         self.pages.push(block);
+        #[cfg(petrichorit_des_verif)]
+        verif::observe(verif::VerifAllocEvent::Page {
+            addr: block as usize,
+            len: self.page_size,
+        });
         self.add_free_region(block as usize, self.page_size);
     }
 
@@ -164,6 +169,10 @@ impl Drop for CQueueLLAllocatorInner {
         let layout = Layout::from_size_align(self.page_size, self.page_size)
             .expect("failed to generate page layout");
         for page in &self.pages {
+            #[cfg(petrichorit_des_verif)]
+            verif::observe(verif::VerifAllocEvent::PageFreed {
+                addr: *page as usize,
+            });
             unsafe { alloc::dealloc(*page, layout) }
         }
     }
@@ -201,6 +210,13 @@ impl CQueueLLAllocator {
                     }
                 }
                 allocator.allocated_mem += size;
+                #[cfg(petrichorit_des_verif)]
+                verif::observe(verif::VerifAllocEvent::Alloc {
+                    addr: alloc_start,
+                    size,
+                    req_size: layout.size(),
+                    req_align: layout.align(),
+                });
                 Ok(alloc_start as *mut u8)
             }
         } else {
@@ -212,6 +228,42 @@ impl CQueueLLAllocator {
         let (size, _) = CQueueLLAllocatorInner::size_align(layout);
         let allocator = unsafe { &mut *self.inner };
         allocator.allocated_mem -= size;
+        #[cfg(petrichorit_des_verif)]
+        verif::observe(verif::VerifAllocEvent::Dealloc {
+            addr: ptr.as_ptr() as usize,
+            size,
+        });
         allocator.add_free_region(ptr.as_ptr() as usize, size);
+    }
+}
+
+#[cfg(petrichorit_des_verif)]
+pub mod verif {
+    use std::cell::RefCell;
+
+    /// An allocator event reported to the harness-installed observer.
+    #[derive(Debug, Clone, Copy, PartialEq, Eq)]
+    pub enum VerifAllocEvent {
+        Page { addr: usize, len: usize },
+        PageFreed { addr: usize },
+        Alloc { addr: usize, size: usize, req_size: usize, req_align: usize },
+        Dealloc { addr: usize, size: usize },
+    }
+
+    thread_local! {
+        static OBSERVER: RefCell<Option<Box<dyn FnMut(VerifAllocEvent)>>> = const { RefCell::new(None) };
+    }
+
+    /// Installs (or removes) the thread-local allocator observer.
+    pub fn verif_set_alloc_observer(f: Option<Box<dyn FnMut(VerifAllocEvent)>>) {
+        OBSERVER.with(|o| *o.borrow_mut() = f);
+    }
+
+    pub(super) fn observe(event: VerifAllocEvent) {
+        OBSERVER.with(|o| {
+            if let Some(f) = o.borrow_mut().as_mut() {
+                f(event);
+            }
+        });
     }
 }
